@@ -219,6 +219,24 @@ theorem C16_literal_file_denotes (T : Tables) (F : List (String × String)) (d :
   unfold hclDescription evalFile
   simp [evalLocals, eval_quote, h]
 
+/-- the description `ParseHCLFile` hands to the conversion is in converted form (converting it again changes nothing):
+it is exactly what the YAML twin spells with quoted strings -/
+theorem C16_description_converted (T : Tables) (F : List (String × String)) (f : HclFile) (d : V)
+    (h : hclDescription T F f = some d) : coerceV T (.struct T.hclRoot) d = some d := by
+  unfold hclDescription at h
+  cases he : evalFile F f with
+  | none => simp [he] at h
+  | some v =>
+    simp only [he, Option.bind_some] at h
+    exact (coerceV_idem T v _ d h).1
+
+/-- conveniences are FULLY evaluated: whatever description a file with `locals`, templates, member accesses and
+function calls denotes, the file that spells that description with literals only denotes the same — nothing of the
+conveniences is left for the conversion to see -/
+theorem C16_description_expressible (T : Tables) (F : List (String × String)) (f : HclFile) (d : V)
+    (h : hclDescription T F f = some d) : hclDescription T F ⟨[], quote d⟩ = some d :=
+  C16_literal_file_denotes T F d (C16_description_converted T F f d h)
+
 /-- a file whose locals or expressions do not evaluate is refused as a whole (nothing half-evaluated is converted) -/
 theorem C16_hcl_file_refused (f : HclFile) (h : evalFile fns f = none) :
     hclFilePath current fns f = .refused := by
